@@ -11,7 +11,6 @@ Inductive gelem (k : cfg) (Q : bump -> greq -> Prop) : bump -> bump -> Prop :=
 | G_push b g data : Q b g -> gelem k Q b (push_chunk b (new_chunk k b g data))
 | G_reset b : gelem k Q b (fst (reset k b))
 | G_drop b : gelem k Q b (fst (drop_arena k b))
-| G_limit b o : gelem k Q b (mkBump (chunks b) o (tws b))
 | G_tws b ts : gelem k Q b (set_tws b ts).
 
 Inductive gpath (k : cfg) (Q : bump -> greq -> Prop) : bump -> bump -> Prop :=
@@ -24,35 +23,43 @@ Proof. intro H; eapply GP_cons; [exact H | apply GP_nil]. Qed.
 Lemma gpath_trans k Q a b c : gpath k Q a b -> gpath k Q b c -> gpath k Q a c.
 Proof. induction 1; intros; [assumption | eapply GP_cons; eauto]. Qed.
 
-#[export] Hint Resolve GP_nil gpath_one G_ptr G_reset G_drop G_limit G_tws : growth.
+#[export] Hint Resolve GP_nil gpath_one G_ptr G_reset G_drop G_tws : growth.
 
 (* what the acquirer answers at state b satisfies Q there *)
 (* (a capacity request is only ever made by the constructor, on an arena without chunks) *)
-Definition relevant (b : bump) (w : want) : Prop :=
-  match w with ForCapacity _ => chunks b = [] | ForLayout _ => True end.
-Definition acq_at (A : acquirer) (b : bump) (Q : bump -> greq -> Prop) : Prop :=
-  forall w g data reqs, relevant b w -> A b w = (AcqSome g data, reqs) -> Q b g.
+Definition relevant (b : bump) (o : op) (w : want) : Prop :=
+  match w with
+  | ForCapacity cap => chunks b = [] /\ o = OWithCapacity cap
+  | ForLayout _ => forall cap, o <> OWithCapacity cap
+  end.
+Definition acq_at (A : acquirer) (b : bump) (o : op) (Q : bump -> greq -> Prop) : Prop :=
+  forall w g data reqs, relevant b o w -> A b w = (AcqSome g data, reqs) -> Q b g.
+(* the same, for the operations that ask with a layout *)
+Definition acq_lay (A : acquirer) (b : bump) (Q : bump -> greq -> Prop) : Prop :=
+  forall l g data reqs, A b (ForLayout l) = (AcqSome g data, reqs) -> Q b g.
+Lemma acq_at_lay A b o Q : (forall cap, o <> OWithCapacity cap) -> acq_at A b o Q -> acq_lay A b Q.
+Proof. intros N H l g data reqs E. exact (H (ForLayout l) g data reqs N E). Qed.
 
 Lemma fast_gpath k Q b l p b' : fast k b l = Some (p, b') -> gpath k Q b b'.
 Proof. unfold fast; destruct (fast_ptr _ _ _ _); intros H; inversion H; subst; auto with growth. Qed.
 
-Lemma slow_gpath k Q A b l : acq_at A b Q -> gpath k Q b (fst (slow k A b l)).
+Lemma slow_gpath k Q A b l : acq_lay A b Q -> gpath k Q b (fst (slow k A b l)).
 Proof.
   intros HA. unfold slow. destruct (A b (ForLayout l)) as [a reqs] eqn:EA. destruct a; cbn [fst]; auto with growth.
-  assert (HQ : Q b g) by (apply (HA (ForLayout l) g data reqs I EA)).
+  assert (HQ : Q b g) by (apply (HA l g data reqs EA)).
   destruct (fast k _ l) as [[p b2]|] eqn:E; cbn [fst].
   - eapply GP_cons; [apply G_push; exact HQ | eapply fast_gpath; eauto].
   - apply gpath_one, G_push, HQ.
 Qed.
 
-Lemma try_alloc_gpath k Q A b l : acq_at A b Q -> gpath k Q b (fst (try_alloc k A b l)).
+Lemma try_alloc_gpath k Q A b l : acq_lay A b Q -> gpath k Q b (fst (try_alloc k A b l)).
 Proof.
   intros HA. unfold try_alloc. destruct (fast k b l) as [[p b1]|] eqn:E; cbn [fst].
   - eapply fast_gpath; eauto.
   - apply slow_gpath, HA.
 Qed.
 
-Lemma shrink_gpath k Q A b p old new : acq_at A b Q -> gpath k Q b (fst (shrink k A b p old new)).
+Lemma shrink_gpath k Q A b p old new : acq_lay A b Q -> gpath k Q b (fst (shrink k A b p old new)).
 Proof.
   intros HA. unfold shrink.
   destruct (l_align old <? l_align new).
@@ -61,7 +68,7 @@ Proof.
   - destruct (_ && _); cbn [fst]; auto with growth.
 Qed.
 
-Lemma grow_gpath k Q A b p old new : acq_at A b Q -> gpath k Q b (fst (grow k A b p old new)).
+Lemma grow_gpath k Q A b p old new : acq_lay A b Q -> gpath k Q b (fst (grow k A b p old new)).
 Proof.
   intros HA. unfold grow.
   destruct (round_up_to _ _); cbn [fst]; auto with growth.
@@ -73,23 +80,23 @@ Proof.
   - rewrite after_alloc_copy_fst. apply try_alloc_gpath, HA.
 Qed.
 
-Lemma realloc_gpath k Q A b p l n : acq_at A b Q -> gpath k Q b (fst (realloc k A b p l n)).
+Lemma realloc_gpath k Q A b p l n : acq_lay A b Q -> gpath k Q b (fst (realloc k A b p l n)).
 Proof.
   intros HA. unfold realloc. destruct (l_size l =? 0); [apply try_alloc_gpath, HA|].
   destruct (layout_ok _ _); cbn [fst]; auto with growth.
   destruct (n <=? l_size l); [apply shrink_gpath | apply grow_gpath]; exact HA.
 Qed.
 
-Lemma with_capacity_gpath k Q A b cap : acq_at A b Q -> gpath k Q b (fst (with_capacity k A b cap)).
+Lemma with_capacity_gpath k Q A b cap : acq_at A b (OWithCapacity cap) Q -> gpath k Q b (fst (with_capacity k A b cap)).
 Proof.
   intros HA. unfold with_capacity. destruct (chunks b) eqn:EC; cbn [fst]; auto with growth.
   destruct (cap =? 0); cbn [fst]; auto with growth.
   destruct (layout_ok _ _); cbn [fst]; auto with growth.
   destruct (A b (ForCapacity cap)) as [a reqs] eqn:EA; destruct a; cbn [fst]; auto with growth.
-  apply gpath_one, G_push. exact (HA (ForCapacity cap) g data reqs EC EA).
+  apply gpath_one, G_push. exact (HA (ForCapacity cap) g data reqs (conj EC eq_refl) EA).
 Qed.
 
-Lemma tw_begin_gpath k Q A b l : acq_at A b Q -> gpath k Q b (fst (tw_begin k A b l)).
+Lemma tw_begin_gpath k Q A b l : acq_lay A b Q -> gpath k Q b (fst (tw_begin k A b l)).
 Proof.
   intros HA. unfold tw_begin. pose proof (try_alloc_gpath k Q A b l HA) as H.
   destruct (try_alloc k A b l) as [b1 o]; cbn [fst snd] in *.
@@ -106,18 +113,21 @@ Proof.
     (eapply GP_cons; [apply (G_tws k Q b rest) | auto with growth]).
 Qed.
 
-Theorem step_gpath k Q A b o : acq_at A b Q -> gpath k Q b (fst (step k A b o)).
+Theorem step_gpath k Q A b o :
+  (forall x, o <> OSetLimit x) -> acq_at A b o Q -> gpath k Q b (fst (step k A b o)).
 Proof.
-  intros HA. destruct o; cbn [step].
+  intros NL HA.
+  destruct o; cbn [step];
+    try (assert (HL : acq_lay A b Q) by (eapply acq_at_lay; [|exact HA]; intros c; discriminate)).
   - apply with_capacity_gpath, HA.
-  - apply try_alloc_gpath, HA.
+  - apply try_alloc_gpath, HL.
   - unfold dealloc; destruct (_ =? _); cbn [fst]; auto with growth.
-  - destruct zeroed; [rewrite grow_zeroed_fst|]; apply grow_gpath, HA.
-  - apply shrink_gpath, HA.
-  - apply realloc_gpath, HA.
+  - destruct zeroed; [rewrite grow_zeroed_fst|]; apply grow_gpath, HL.
+  - apply shrink_gpath, HL.
+  - apply realloc_gpath, HL.
   - auto with growth.
-  - cbn [fst]; auto with growth.
-  - apply tw_begin_gpath, HA.
+  - exfalso. exact (NL o eq_refl).
+  - apply tw_begin_gpath, HL.
   - apply tw_end_gpath.
   - auto with growth.
 Qed.
@@ -126,21 +136,27 @@ Lemma gpath_inv k Q (P : bump -> Prop) :
   (forall a b, gelem k Q a b -> P a -> P b) -> forall a b, gpath k Q a b -> P a -> P b.
 Proof. intros HP a b H; induction H; eauto. Qed.
 
-(* a history in which whatever the allocator granted satisfied Q at the state it was asked in *)
-Fixpoint hist_ok (k : cfg) (Q : bump -> greq -> Prop) (b : bump) (h : list (op * acquirer)) : Prop :=
+(* a history in which whatever the allocator granted satisfied Q at the state it was asked in, and
+   every change of the limit satisfied L at the state it was made in *)
+Fixpoint hist_ok (k : cfg) (Q : bump -> greq -> Prop) (L : bump -> option N -> Prop)
+         (b : bump) (h : list (op * acquirer)) : Prop :=
   match h with
   | [] => True
-  | (o, A) :: r => acq_at A b Q /\ hist_ok k Q (fst (step k A b o)) r
+  | (o, A) :: r =>
+      acq_at A b o Q /\ (match o with OSetLimit x => L b x | _ => True end) /\
+      hist_ok k Q L (fst (step k A b o)) r
   end.
 
-Theorem run_ginv k Q (P : bump -> Prop) :
+Theorem run_ginv k Q (L : bump -> option N -> Prop) (P : bump -> Prop) :
   (forall a b, gelem k Q a b -> P a -> P b) ->
-  forall h b, hist_ok k Q b h -> P b -> P (run k b h).
+  (forall b x, L b x -> P b -> P (mkBump (chunks b) x (tws b))) ->
+  forall h b, hist_ok k Q L b h -> P b -> P (run k b h).
 Proof.
-  intros HP h. unfold run.
+  intros HP HL h. unfold run.
   induction h as [|[o A] h IH]; cbn [fold_left fst snd hist_ok]; intros b Hh Hb; [exact Hb|].
-  destruct Hh as [HA Hr]. apply IH; [exact Hr|].
-  eapply gpath_inv; [exact HP | apply step_gpath; exact HA | exact Hb].
+  destruct Hh as (HA & Ho & Hr). apply IH; [exact Hr|].
+  destruct o; try (eapply gpath_inv; [exact HP | apply step_gpath; [intros x; discriminate | exact HA] | exact Hb]).
+  cbn [step fst]. apply HL; assumption.
 Qed.
 
 (* ---- the doubling chain ---- *)
@@ -161,7 +177,7 @@ Proof. split; [exact I | constructor]. Qed.
 
 Lemma gelem_chain k a b : gelem k (grows k) a b -> Chain k a -> Chain k b.
 Proof.
-  unfold Chain. intros H; destruct H as [b p|b g data HQ|b|b|b o|b ts]; intros [Hd Hf].
+  unfold Chain. intros H; destruct H as [b p|b g data HQ|b|b|b ts]; intros [Hd Hf].
   - rewrite chunks_set_ptr. destruct (chunks b) as [|c r]; [split; assumption|].
     cbn [doubling with_ptr c_nswf] in *. split; [exact Hd|].
     inversion Hf; subst. constructor; assumption.
@@ -172,13 +188,17 @@ Proof.
     cbn [doubling c_nswf]. split; [split; exact I|]. inversion Hf; subst. constructor; [assumption | constructor].
   - cbn [drop_arena fst chunks doubling]. split; [exact I | constructor].
   - split; assumption.
-  - split; assumption.
 Qed.
 
 (* every reachable state of such a history is a doubling chain *)
+Definition any_limit : bump -> option N -> Prop := fun _ _ => True.
+
 Theorem growth_chain k h b :
-  hist_ok k (grows k) b h -> Chain k b -> Chain k (run k b h).
-Proof. intros Hh Hb. exact (run_ginv k (grows k) (Chain k) (gelem_chain k) h b Hh Hb). Qed.
+  hist_ok k (grows k) any_limit b h -> Chain k b -> Chain k (run k b h).
+Proof.
+  intros Hh Hb. apply (run_ginv k (grows k) any_limit (Chain k) (gelem_chain k)); [|exact Hh | exact Hb].
+  intros b0 x _ H. exact H.
+Qed.
 
 (* ---- what a doubling chain means in numbers ---- *)
 Lemma chain_log k : forall cs c r, doubling cs -> Forall (fun c => k_default k <= c_nswf c) cs ->
@@ -206,7 +226,7 @@ Qed.
 (* the number of chunks held is logarithmic in the size of the newest; everything held is at most
    twice the newest chunk *)
 Theorem growth_logarithmic k h :
-  hist_ok k (grows k) fresh h ->
+  hist_ok k (grows k) any_limit fresh h ->
   let b := run k fresh h in
   match chunks b with
   | [] => True
@@ -372,9 +392,9 @@ Qed.
 
 Theorem policy_grows k answers b :
   small_consts k -> limit b = None -> cur_layout_size k b - k_footer k < 576460752303423488 ->
-  granted answers -> acq_at (policy k answers) b (grows k).
+  granted answers -> forall o, acq_at (policy k answers) b o (grows k).
 Proof.
-  intros K Hlim Hcur (data & rest & ->) w g data' reqs Hrel H.
+  intros K Hlim Hcur (data & rest & ->) o w g data' reqs Hrel H.
   pose proof K as (Kp & Ko & Kd & Kd0 & Nc & Np & Kf).
   destruct w as [l|cap]; unfold policy, acq_of in H.
   - destruct (slow_policy k b l (Some data :: rest)) as [rq pr] eqn:E. cbn [fst snd] in H.
@@ -382,7 +402,7 @@ Proof.
     pose proof (slow_policy_first k b l data rest rq d dt K Hlim Hcur E) as E1.
     destruct (mem_details_bounds k _ l d Nc Np E1) as (_ & B1 & _ & B3 & _).
     unfold grows. cbn [g_size]. rewrite B3. lia.
-  - cbn [relevant] in Hrel. unfold capacity_policy in H.
+  - cbn [relevant] in Hrel. destruct Hrel as [Hrel _]. unfold capacity_policy in H.
     destruct (mem_details k None (mkLayout cap (k_malign k))) as [| |d] eqn:ED; cbn [fst snd] in H; try discriminate.
     destruct (layout_ok (d_size d) (d_align d)); cbn [fst snd] in H; [|discriminate].
     inversion H; subst; clear H.
@@ -425,11 +445,11 @@ Fixpoint crate_run (k : cfg) (b : bump) (h : list (op * acquirer)) : Prop :=
       crate_run k (fst (step k A b o)) r
   end.
 
-Lemma crate_run_hist_ok k : small_consts k -> forall h b, crate_run k b h -> hist_ok k (grows k) b h.
+Lemma crate_run_hist_ok k : small_consts k -> forall h b, crate_run k b h -> hist_ok k (grows k) any_limit b h.
 Proof.
   intros K. induction h as [|[o A] r IH]; intros b H; [exact I|].
   cbn [crate_run hist_ok] in *. destruct H as ((answers & -> & G) & L & C & R).
-  split; [apply policy_grows; assumption | apply IH, R].
+  split; [apply policy_grows; assumption | split; [destruct o; exact I | apply IH, R]].
 Qed.
 
 Theorem crate_growth_logarithmic k h :
